@@ -149,6 +149,7 @@ def main(argv):
             traceback.print_exc()
             faults.append(f"executor crashed on {c.qual}: {type(e).__name__}: {e}")
             ex.current = None
+    t_gen = time.time() - t0
     # ---- spec-level lemmas
     for name, mk in P.lemmas:
         try:
@@ -173,7 +174,9 @@ def main(argv):
         else:
             seen[o.name] = 0
     # ---- discharge
+    t1 = time.time()
     solve.discharge_all(obligs, P.axioms, tier)
+    t_solve = time.time() - t1
     if tier == "thorough":
         for o in obligs:
             if o.result == "discharged" and o.backend == "z3":
@@ -183,17 +186,31 @@ def main(argv):
     # (a) the contract's concrete witness provably satisfies the precondition (axioms ∧ witness ⊢ requires),
     #     so the precondition is not contradictory; (b) no path's assumptions are refutable (⊢ False) within budget.
     vac = []
-    for tag, info, returns in ex.vacuity:
+    plain = []
+    for vi, (tag, info, returns) in enumerate(ex.vacuity):
+        if info is None:
+            continue
+        if info.get("witness") is None:
+            plain.append((("vac", vi), solve.smt2_of(P.axioms, info["pc"], z3.BoolVal(False)), 3000))
+        else:
+            plain.append((("vac", vi), solve.smt2_of(P.axioms, info["witness"], info["goal"]), 20000))
+    by_fn = {}
+    for o in obligs:
+        if o.kind in ("post", "inv-pres"):
+            by_fn.setdefault((o.name.split("@")[0].rsplit(".", 1)[0], o.name.split("@")[-1]), o)
+    for (tag, sig), o in by_fn.items():
+        plain.append((("can", tag, sig), solve.smt2_of(P.axioms, o.assumptions, z3.BoolVal(False)), 400 if tier == "quick" else 3000))
+    pres = solve.run_plain(plain)
+    for vi, (tag, info, returns) in enumerate(ex.vacuity):
         rec = {"function": tag, "normal_exit_paths": returns}
+        r = pres.get(("vac", vi), ("n/a", 0))[0]
         if info is None:
             rec["precondition"] = "not reached"
         elif info.get("witness") is None:
-            r, dt, model, reason = solve.check_z3(P.axioms, info["pc"], z3.BoolVal(False), 3000)
             rec["precondition"] = {"sat": "satisfiable (z3 model)", "unsat": "CONTRADICTORY"}.get(r, "no witness declared; z3: " + r)
             if r == "unsat":
                 faults.append(f"vacuous precondition for {tag}")
         else:
-            r, dt, model, reason = solve.check_z3(P.axioms, info["witness"], info["goal"], 20000)
             rec["precondition"] = {"unsat": "witness satisfies it (proved)", "sat": "WITNESS DOES NOT SATISFY"}.get(r, r)
             rec["witness"] = info["witness_text"]
             if r != "unsat":
@@ -202,12 +219,8 @@ def main(argv):
             faults.append(f"no normal exit path in {tag}")
         vac.append(rec)
     canaries = []
-    by_fn = {}
-    for o in obligs:
-        if o.kind in ("post", "inv-pres"):
-            by_fn.setdefault((o.name.split("@")[0].rsplit(".", 1)[0], o.name.split("@")[-1]), o)
     for (tag, sig), o in by_fn.items():
-        r, dt, model, reason = solve.check_z3(P.axioms, o.assumptions, z3.BoolVal(False), 400 if tier == "quick" else 3000)
+        r = pres.get(("can", tag, sig), ("unknown", 0))[0]
         canaries.append({"path": tag + "@" + sig, "false_goal": {"sat": "refuted (good)", "unsat": "VERIFIED: PATH ASSUMPTIONS CONTRADICTORY",
                                                                    "unknown": "not provable within budget (good)"}.get(r, r)})
         if r == "unsat":
@@ -393,7 +406,7 @@ def main(argv):
     nd = ev["coverage"]["discharged"]
     print(f"[{pid}] functions={len(functions)} obligations={len(counted)} discharged={nd} refuted={len(violations)} "
           f"unknown={len(unknowns)} undecided_functions={len([u for u in undecided if 'function' in u])} "
-          f"solver_time={ev['coverage']['solver_time_s']}s wall={ev['wall_s']}s")
+          f"solver_time={ev['coverage']['solver_time_s']}s wall={ev['wall_s']}s (generate {t_gen:.1f}s, discharge {t_solve:.1f}s)")
     for ln in out_lines:
         print(ln)
     if violations:
